@@ -13,7 +13,7 @@ RULE = ('all formulas of the stated fragments (<=k operators over the operator/i
         'arithmetic terms; deep, wide, long and large-magnitude layers) x all traces up to the stated length over the value alphabet, each evaluated by the real '
         'offline monitor and compared with the reference rho; a case is non-trivial when the reference output is '
         'not constant +-inf and differs from the output of every direct operand (the top operator mattered); '
-        'cases are distinct by construction (each (formula, trace) pair is enumerated once); for every second formula the caller keeps one data set and refills its lists in place before each evaluate(); life layer: the same comparison on specification objects that were '
+        'cases are distinct by construction (each (formula, trace) pair is enumerated once); for every second formula the caller keeps one data set and refills its lists in place before each evaluate(); structured presentation: for the arithmetic / pattern / three-variable sets and every third formula of F1, F2, Chain3 the variables are also presented as fields m.x (or m.inner.x) of ONE variable whose samples are objects (import_module + declare_var(m, <class>)); life layer: the same comparison on specification objects that were '
         'used under another default unit / sampling period before and then switched through the public setters (all ordered pairs of 4 configurations)')
 ASSUMPTIONS = ['finite dyadic sample values only; NaN/inf inputs out of scope',
                'cases where the reference raises a math domain error are dropped',
@@ -180,7 +180,8 @@ def check_case(case, spec=None):
     except refsem.DomainError:
         return None
     if spec is None:
-        spec = impl.build('dt_off', case['spec'], case['vars'], combined=case.get('combined', False), var_type=case.get('var_type', 'float'))
+        spec = impl.build('dt_off', case['spec'], case['vars'], combined=case.get('combined', False), var_type=case.get('var_type', 'float'),
+                          struct=case.get('struct'))
         for pre in case.get('pre', []):
             impl.outcome(impl.dt_evaluate, spec, pre['trace'], pre['times'])
     if case.get('buffers') is not None:
@@ -207,9 +208,16 @@ def run_shard(shard, tier, res):
         text = 'out = ' + F.pr(f)
         res.formulas += 1
         variants = [False, True] if shard['tag'] in ('F1', 'Unused', 'IntData') else [False]
+        # structured presentation: the variables are fields (m.x / m.inner.x) of one variable whose samples are objects
+        if shard['tag'] in ('Arith', 'Patterns', 'ThreeVars', 'Unused') or (shard['tag'] in ('F1', 'F2', 'Chain3') and res.formulas % 3 == 0):
+            variants = variants + ['nested' if res.formulas % 2 else 'flat']
         for combined in variants:
+            struct = combined if isinstance(combined, str) else None
+            combined = False if struct else combined
             try:
-                if shard['tag'] == 'IntData':
+                if struct:
+                    spec = impl.build('dt_off', text, decl, struct=struct)
+                elif shard['tag'] == 'IntData':
                     spec = impl.build('dt_off', text, decl, var_type='int' if combined else 'float')
                 else:
                     spec = impl.build('dt_off', text, decl, combined=combined)
@@ -226,7 +234,7 @@ def run_shard(shard, tier, res):
             # must not leak into a shorter one): even positions ascending, then odd positions descending
             all_traces = all_traces[::2] + all_traces[1::2][::-1]
             # every second formula: the caller keeps ONE data set (one dict, one list per column) and refills it in place before each evaluate()
-            reuse = (res.formulas % 2 == 0)
+            reuse = (res.formulas % 2 == 0) and not struct
             buf = {'time': []}
             for ti, t in enumerate(all_traces):
                 w = F.trace_dict(t, decl)
@@ -234,6 +242,9 @@ def run_shard(shard, tier, res):
                 case = {'formula': fj, 'spec': text, 'vars': decl, 'combined': combined, 'trace': w, 'times': times}
                 if reuse:
                     case['buffers'] = buf
+                if struct:
+                    case['struct'] = struct
+                    res.flags['evaluations_on_structured_samples'] += 1
                 if shard['tag'] == 'IntData':
                     case.update(combined=False, var_type='int' if combined else 'float')
                 if shard['tag'] == 'Big':
@@ -245,7 +256,7 @@ def run_shard(shard, tier, res):
                 except refsem.DomainError:
                     res.flags['domain_dropped'] += 1
                     ref = None
-                if ref is not None and not combined and refsem.top_matters(f, w, len(t), ref):
+                if ref is not None and not combined and not struct and refsem.top_matters(f, w, len(t), ref):
                     res.nontrivial += 1
                 if msg is not None:
                     if case.pop('buffers', None) is not None:
